@@ -228,6 +228,21 @@ func init() {
 		}
 		runStreamProfile(o, r, profile{name: "ends", rounds: [2]int{5, 14}, cancel: 35, handlerEnd: 45, headers: 30, kinds: []string{"BD", "SS", "CS"}, returnCodes: []int64{0, 0, 5, 13, -1, -2}}, n)
 		runStreamProfile(o, r, profile{name: "early_return", rounds: [2]int{5, 12}, cancel: 5, handlerEnd: 90, headers: 30, kinds: []string{"BD", "SS", "CS"}, returnCodes: []int64{0, 14}}, n)
+		// written-out schedules: a second handler goroutine is still in RecvMsg when the handler returns
+		// while its final frames do not fit the response buffer (nobody receives): the receive must
+		// return then, not when the client at last makes room (F26, repaired)
+		{
+			H := func(k string, x int64) sOp { return sOp{actor: "H", kind: k, x: x} }
+			HR := sOp{actor: "HR", kind: "HRecv"}
+			CR := sOp{actor: "CR", kind: "CRecv"}
+			tlr := sOp{actor: "H", kind: "HSetTrailer", md: []int64{1}}
+			runFixedSchedules(o, "receive_in_flight_at_return", []string{"BD", "CS"}, [][]sOp{
+				{tlr, H("HSend", 101), H("HSend", 102), HR, CR, H("HReturn", 5), {actor: "CS", kind: "CClose"}, CR, CR},
+				{H("HSend", 101), HR, H("HReturn", 7), CR, CR, CR},
+				{tlr, HR, H("HReturn", 0), CR, CR},
+				{tlr, H("HSend", 101), HR, H("HReturn", 0), {actor: "CS", kind: "CSend", x: 3}, CR, CR, CR},
+			})
+		}
 		httpClientSchedules(o, r, n, "Http")
 		runC05HTTP(o, r, thorough)
 		o.Check, o.Oracle, o.Finding = "check_c05", "oracle_c05", "finding_case"
